@@ -188,7 +188,13 @@ def extract_and_build(ctx, index):
     info['generated_changed'] = changed
     for table, msg in errors:
         ctx.add_broken('extract', 'extract:' + table, msg)
-    targets = ['PMV.Properties.' + ctx.prop, 'pmv-driver']
+    # every module that holds a theorem registered for this property (some are proved in another property's file)
+    try:
+        with open(os.path.join(LEAN_DIR, 'PMV', 'Properties', 'index.json')) as fh:
+            extra = json.load(fh).get(ctx.prop, {}).get('modules', [])
+    except Exception:
+        extra = []
+    targets = sorted(set(['PMV.Properties.' + ctx.prop] + list(extra))) + ['pmv-driver']
     t = time.time()
     r = common.run(['lake', 'build'] + targets, cwd=LEAN_DIR)
     info['build_s'] = round(time.time() - t, 1)
